@@ -12,7 +12,7 @@
      for every admitted query, fault script and arrival pattern: exactly one reply reaches
      the client's socket, no later than querytimeout + margin; expiry/cancel/capacity
      refusal is a SERVFAIL to that client only; after load stops the server is quiescent. *)
-From Sdns Require Import Common.Base Gen.C11 C11.Model C11.Proofs_Writer C11.Proofs_WG C11.Proofs_Req C11.Proofs_World C11.Proofs_Lazy.
+From Sdns Require Import Common.Base Gen.C11 C11.Model C11.Proofs_Writer C11.Proofs_WG C11.Proofs_Req C11.Proofs_World C11.Proofs_Lazy C11.Stream C11.Proofs_Stream C11.Regroup C11.Proofs_Regroup.
 
 (* ---- translator ties ---- *)
 Theorem writer_sentinels_consistent :
@@ -177,3 +177,24 @@ Theorem exactly_one_reply_server_partial : forall rs paths workers qcap cap evs,
          (reqs (s_w (fold_left sevent_step evs (sworld0 rs paths workers qcap cap)))).
 Proof. exact server_one_reply. Qed.
 Print Assumptions exactly_one_reply_server_partial.
+
+(* ---- TCP / DoT stream path (session 3) ---- *)
+(* A reply staged for an admitted query is written under a bound that has not expired: for
+   every announced-frame list, every resolution time and query timeout, every client timing
+   (chunks, close, a client that stops reading), every Write the connection goroutine issues
+   is issued strictly before the bound the connection carries at that moment, and that bound
+   is armed.  (Model: Stream.v = tcp_stream.go + serveConn; the waits are the source's.) *)
+Theorem stream_writes_under_live_bound : forall qt frames c,
+  Forall (fun e => live_write e = true) (run_conn qt frames c).
+Proof. exact writes_under_live_bound. Qed.
+Print Assumptions stream_writes_under_live_bound.
+
+(* ---- Resolver.groupLookup follower loop (session 3) ---- *)
+(* A follower never inherits another request's deadline / cancellation, however long the
+   chain of failed leaders: for every number of callers, every sequence of arrivals, context
+   endings, recoveries and single wake-ups (= every schedule of the re-entering followers),
+   a caller that ends with an error ends with ITS OWN, and its own context did end. *)
+Theorem regroup_follower_never_inherits : forall n evs i o t,
+  out_of (grun (g0 n) evs) i = GErr o t -> o = i /\ In (GEnd i) evs.
+Proof. exact follower_never_inherits. Qed.
+Print Assumptions regroup_follower_never_inherits.
